@@ -350,7 +350,7 @@ def shard(ctx: Ctx, sh: int, nshards: int, n: int) -> Stats:
             for sig, det in fails:
                 st.fail(sig, case, det)
 
-        drive(strategy(), one, ctx.shard_seed(sh, 51), n)
+        drive(strategy(), one, ctx.shard_seed(sh, 51), n, chunk=4000)
     return st
 
 
